@@ -76,6 +76,15 @@ local name bound to a `CellVariable(...)` call = `.new`.
       stored once and loaded once in the whole function.  The merged statement must match a pattern of this table;
       their sub-expressions are reads, so evaluating E at its place of use instead of one statement earlier
       changes nothing.  `return`s in all branches of an `if`: the references bound inside the branches are dropped.
+INERT statements (tinert.py: print / warnings.warn / logging calls and asserts on PURE expressions, `pass`, `if <pure>:`
+over such statements, validation guards `if <pure>: raise E(...)`, assignments to locals that only such statements read)
+are skipped BEFORE any pattern is tried, wherever they stand (top level, inside an `if` / `for`, in the methods of
+boundary.py, in `_BCs_outdated`, in the `value` getter, in the methods of `TrackedArray`): they emit no instruction,
+do not count as a use of `Mbc` / `RHSbc`, and do not disturb the order of the tracked statements.  A pure expression
+may READ tracked attributes (`phi.value.shape`, `phi.BCs.modified`) but contains no method call, no store, no `:=`, and
+only calls of a closed list of side-effect-free functions, so a skipped statement cannot change a tracked field.
+Keyword-only / trailing parameters with a default that only inert statements read are ignored in the signature checks
+(also in `CellVariable.__init__` and the `TrackedArray` templates).
 ANY other statement makes the function `untranslated: <reason>`: no definition is emitted, its name is listed in
 `untranslated`, the theorems about it in GenEqState.lean no longer compile.  A function that calls an untranslated
 function is untranslated.
@@ -89,13 +98,14 @@ boundary.py (flag level; `FaceFlags` = the `modified` flags of `_a`, `_b`, `_c`;
   BoundaryConditionsBase.modified     getter: `or` over `self.<side>.modified`; setter: `self.<side>.modified = <const>`
   BoundaryConditionsBase._state_token `tuple((np.asarray(f.a).tobytes(), ..., bool(f.periodic)) for f in (self.left, ...))`
                                       -> state_token_fields : List (Side x Coef)
-utilities.py: the five methods of `TrackedArray` must be EXACTLY the templates below (docstrings aside).
+utilities.py: the five methods of `TrackedArray` must be EXACTLY the templates below (docstrings and inert statements aside).
 Trusted: `TrackedArray(x)` / basic slicing create views, `np.copy` / arithmetic create new arrays, `deepcopy` copies
 content and (through `__array_finalize__`) the flags, `.tobytes()` captures the values.
 """
 import ast, sys, os, json
 
 sys.path.insert(0, os.path.dirname(os.path.abspath(__file__)))
+import tinert                                                  # noqa: E402
 
 
 class Bad(Exception):
@@ -135,12 +145,17 @@ def is_doc(st):
     return isinstance(st, ast.Expr) and isinstance(st.value, ast.Constant) and isinstance(st.value.value, str)
 
 
+def sbody(fn):
+    """the body of `fn` without its docstring and without inert statements (tinert.py)"""
+    return strip_doc(tinert.live_body(fn))
+
+
 # ---------------------------------------------------------------------------------------------------------
 # module access
 # ---------------------------------------------------------------------------------------------------------
 class Module:
     def __init__(self, path):
-        self.tree = ast.parse(open(path).read())
+        self.tree = tinert.register(ast.parse(open(path).read()))
 
     def func(self, name):
         for n in self.tree.body:
@@ -211,7 +226,7 @@ def check_tracked_array(util):
             if is_doc(n):
                 continue
             if isinstance(n, ast.FunctionDef):
-                m = ast.FunctionDef(name=n.name, args=n.args, body=strip_doc(n.body) or [ast.Pass()],
+                m = ast.FunctionDef(name=n.name, args=tinert.effective_args(n), body=sbody(n) or [ast.Pass()],
                                     decorator_list=n.decorator_list, returns=None, type_comment=None)
                 out.append(ast.dump(m))
             else:
@@ -247,7 +262,7 @@ def check_value_getter(cell):
         if not st.orelse:
             return True
         return len(st.orelse) == 1 and chain(st.orelse[0])
-    body = strip_doc(fn.body)
+    body = sbody(fn)
     if not (len(body) == 1 and chain(body[0])):
         raise Bad("CellVariable.value getter is not a chain of `return self._value[1:-1, ...]`")
 
@@ -260,7 +275,7 @@ def lean_bool(b):
 
 
 def face_getter(fn):
-    body = strip_doc(fn.body)
+    body = sbody(fn)
     env = {}
     for st in body[:-1]:
         if not (isinstance(st, ast.Assign) and len(st.targets) == 1 and isinstance(st.targets[0], ast.Name)):
@@ -301,7 +316,7 @@ def face_setter(fn):
         if isinstance(n, ast.Call) and U(n.func) == "bool" and len(n.args) == 1 and not n.keywords:
             return val(n.args[0])
         raise Bad(f"BoundaryFace.modified setter: value {U(n)[:40]}")
-    for st in strip_doc(fn.body):
+    for st in sbody(fn):
         if isinstance(st, ast.Assign) and len(st.targets) == 1:
             t = st.targets[0]
             if isinstance(t, ast.Name):
@@ -321,18 +336,18 @@ def face_methods(bnd, facts):
     flag = lean_bool(facts["setitem_flag"])
     for k in "abc":
         fn = bnd.method("BoundaryFace", k, "setter")
-        body = strip_doc(fn.body)
+        body = sbody(fn)
         if not (len(body) == 1 and isinstance(body[0], ast.Assign) and len(body[0].targets) == 1
                 and U(body[0].targets[0]) == f"self._{k}[:]" and isinstance(body[0].value, ast.Name)
                 and body[0].value.id == fn.args.args[1].arg):
             raise Bad(f"BoundaryFace.{k} setter is not `self._{k}[:] = val`")
         g = bnd.method("BoundaryFace", k, "getter")
-        gb = strip_doc(g.body)
+        gb = sbody(g)
         if not (len(gb) == 1 and isinstance(gb[0], ast.Return) and U(gb[0].value) == f"self._{k}"):
             raise Bad(f"BoundaryFace.{k} getter is not `return self._{k}`")
         out.append((f"BoundaryFace_set_{k}", f"{k}.setter", f"{{ f with {k} := {flag} }}"))
     fn = bnd.method("BoundaryFace", "periodic", "setter")
-    body = strip_doc(fn.body)
+    body = sbody(fn)
     pv = fn.args.args[1].arg
     if not (len(body) == 2 and all(isinstance(s, ast.Assign) and len(s.targets) == 1 for s in body)
             and U(body[0].targets[0]) == "self.modified" and isinstance(body[0].value, ast.Constant)
@@ -345,7 +360,7 @@ def face_methods(bnd, facts):
         fn = bnd.method("BoundaryFace", nm)
         cur = "f"
         n_sets = 0
-        for st in strip_doc(fn.body):
+        for st in sbody(fn):
             if isinstance(st, ast.Assign) and len(st.targets) == 1 and isinstance(st.targets[0], ast.Attribute) \
                     and isinstance(st.targets[0].value, ast.Name) and st.targets[0].value.id == "self":
                 k = st.targets[0].attr
@@ -371,7 +386,7 @@ def face_methods(bnd, facts):
 
 
 def bcs_getter(fn):
-    body = strip_doc(fn.body)
+    body = sbody(fn)
     if not (len(body) == 1 and isinstance(body[0], ast.Return) and body[0].value is not None):
         raise Bad("BoundaryConditionsBase.modified getter: not a single return")
 
@@ -390,7 +405,7 @@ def bcs_setter(fn):
     if [a.arg for a in fn.args.args] != ["self", "val"]:
         raise Bad("BoundaryConditionsBase.modified setter: signature")
     lines = []
-    for st in strip_doc(fn.body):
+    for st in sbody(fn):
         ok = False
         if isinstance(st, ast.Assign) and len(st.targets) == 1:
             for sd in SIDES:
@@ -412,7 +427,7 @@ def bcs_setter(fn):
 
 
 def state_token(fn):
-    body = strip_doc(fn.body)
+    body = sbody(fn)
     if not (len(body) == 1 and isinstance(body[0], ast.Return)):
         raise Bad("_state_token: not a single return")
     c = body[0].value
@@ -619,8 +634,23 @@ class Ctx:
         return False
 
     # ---- payload
+    def inert(self):
+        return tinert.analysis(getattr(self, "fn_node", None))
+
     def payload(self, st):
         """True if `st` only binds local names (CHECKED); raises Bad when it touches a tracked object"""
+        if not self.inert().is_inert(st):
+            return self.payload0(st)
+        # an inert statement (tinert.py; purely syntactic, cannot write) inside a payload `if` / `for`: the usual checks
+        # first (a `raise` guard, a local assignment are payload anyway); if they do not accept it, it is skipped
+        try:
+            if self.payload0(st):
+                return True
+        except Bad:
+            pass
+        return self.inert().skip_guard(st)
+
+    def payload0(self, st):
         if is_doc(st) or isinstance(st, ast.Pass):
             return True
         if isinstance(st, ast.Raise):
@@ -823,6 +853,8 @@ class Ctx:
     def stmt(self, st):
         import re
         if is_doc(st):
+            return []
+        if self.inert().skip_guard(st):         # inert statement (tinert.py): no instruction, whatever its form
             return []
         if isinstance(st, ast.If):
             return self.tr_if(st)
@@ -1055,7 +1087,7 @@ class Ctx:
         if not (self.norm(dom) in ("REF_self.domain", "REF_other.domain") or (isinstance(dom, ast.Name) and dom.id in self.params)):
             raise Bad(f"constructor: mesh argument `{U(dom)[:30]}`")
         init = tr.cell.method("CellVariable", "__init__")
-        a = init.args
+        a = tinert.effective_args(init)
         if [x.arg for x in a.args] != ["self", "mesh_struct", "cell_value"] or a.vararg is None or a.kwarg is not None \
                 or [x.arg for x in a.kwonlyargs] != ["BCsTerm_precalc"] or a.defaults or a.posonlyargs \
                 or not (len(a.kw_defaults) == 1 and isinstance(a.kw_defaults[0], ast.Constant)
@@ -1210,7 +1242,7 @@ class Translator:
     def function(self, fn, fname, other=None, ref_exprs=None, first_is_ref=True, user_bc=(), user_interior=()):
         self.need("TrackedArray")
         self.need("CellVariable.value.getter")
-        a = fn.args
+        a = tinert.effective_args(fn)           # without the extra parameters that only inert statements read
         if a.kwarg is not None or a.posonlyargs or a.kwonlyargs:
             raise Bad("signature")
         names = [x.arg for x in a.args]
@@ -1306,9 +1338,9 @@ class Translator:
             self.need("BoundaryConditionsBase._state_token")
             self.need("BoundaryConditionsBase.modified")
             fn = cell.method("CellVariable", "_BCs_outdated")
-            if [x.arg for x in fn.args.args] != ["self"]:
+            if [x.arg for x in tinert.effective_args(fn).args] != ["self"]:
                 raise Bad("signature")
-            body = strip_doc(fn.body)
+            body = sbody(fn)
             if not (len(body) == 1 and isinstance(body[0], ast.Return) and body[0].value is not None):
                 raise Bad("not a single return")
             ctx = Ctx(self, "_BCs_outdated", {"self": "self"})
@@ -1322,8 +1354,8 @@ class Translator:
             cell.method("CellVariable", "apply_BCs"), "apply_BCs")))
         A("update_value", lambda: self.emit_prog("update_value", "`CellVariable.update_value`", self.function(
             cell.method("CellVariable", "update_value"), "update_value",
-            other=(cell.method("CellVariable", "update_value").args.args + [None, None])[1].arg
-            if len(cell.method("CellVariable", "update_value").args.args) == 2 else "?")))
+            other=(tinert.effective_args(cell.method("CellVariable", "update_value")).args + [None, None])[1].arg
+            if len(tinert.effective_args(cell.method("CellVariable", "update_value")).args) == 2 else "?")))
         A("copy", lambda: self.emit_prog("copy", "`CellVariable.copy`", self.function(
             cell.method("CellVariable", "copy"), "copy")))
         A("CellVariable.value.setter", lambda: self.emit_prog("value_setter", "`v.value = values` (property setter)",
@@ -1371,6 +1403,7 @@ class Translator:
 
 
 def generate(repo):
+    tinert.set_repo(repo)
     return Translator(repo).run()
 
 
@@ -1378,6 +1411,7 @@ def main():
     repo = os.environ.get("VERIF_REPO", "/repo")
     dst = sys.argv[1]
     text, status = generate(repo)
+    status = tinert.annotate(status)
     write_if_changed(dst, text)
     base = os.path.splitext(os.path.basename(dst))[0].lower()
     write_if_changed(os.path.join(os.path.dirname(os.path.abspath(dst)), f"{base}_status.json"),
